@@ -8,7 +8,7 @@ claim('C12',
       'engine are trusted, every model is replayed natively.',
       'symbolic execution of the real code with z3 (minisym), validity queries per path', 'DESIGN.md §4 C12')
 _todo = ('check not built yet in this round; see DESIGN.md §8 build order')
-for _p in ['C01', 'C02', 'C03', 'C04', 'C05', 'C06', 'C07', 'C08', 'C09', 'C10', 'C11', 'C13', 'C14', 'C15', 'C16', 'C17', 'C20']:
+for _p in ['C01', 'C02', 'C03', 'C04', 'C05', 'C06', 'C07', 'C09', 'C10', 'C11', 'C13', 'C14', 'C15', 'C16', 'C17', 'C20']:
     na(_p, _todo)
 na('C19', 'PYTHONHASHSEED / process effects live in CPython C code and start-up, not reachable by symbolic execution of '
           'chython; modelling set order as arbitrary would over-approximate and raise false alarms (DESIGN.md C19)')
@@ -22,3 +22,13 @@ claim('C18',
       'elements whose MDL reference isotope is not a tabulated isotope are listed in known_findings.json.',
       'z3 validity queries over tables extracted from source + symbolic execution of the real code (minisym)',
       'DESIGN.md §4 C18')
+claim('C08',
+      'Solver-decided: the four real query-atom __eq__ methods and QueryBond.__eq__ against the documented predicate with '
+      'every query constraint and every atom attribute a z3 variable (one validity query per path); calc_labels on star '
+      'environments with every bond order symbolic; SMARTS atom/bond texts assembled from solver-enumerated primitive '
+      'choices parse to the documented constraints, texts outside the subset are rejected; stereo-marked queries against '
+      'every random-order spelling of the seed and of its stereoisomers.',
+      'Bounded: constraint lists up to length 2 (quick) / 3 (thorough), ring sizes over {3,5,6}, listed element classes, '
+      'SMARTS atoms with <= 2 primitive groups; the metal/non-metal partition and the primitive semantics are my reading of '
+      'the documentation.',
+      'symbolic execution of the real comparison / labelling / parsing code with z3 (minisym)', 'DESIGN.md §4 C08')
